@@ -9,6 +9,8 @@ Layers (= harness names = second component of violation keys):
   client-copy / client-buffered         AsyncTCPNetworkClient.recv_packet
   client-iter-copy / -buffered          AsyncTCPNetworkClient.iter_received_packets(timeout)
   tls-recv / tls-recv_into              AsyncTLSStreamTransport.recv / recv_into over the adapter, reference TLSPeer, cipher-text via AlignedFeed
+  tls-duplex-recv / -recv_into          the same while two writer tasks share the connection and the peer does not read: writer 1 stuck in
+                                        send_all owning the transport send lock, writer 2 encrypted and queued for it (capacity_small + peer_stops_reading)
   server-copy / server-buffered         real AsyncTCPNetworkServer, handler does ``request = yield timeout``
   blocking-endpoint-copy / -into            blocking StreamEndpoint.recv_packet(timeout) ending in TimeoutError
 (the thread scheduler does not exist yet; threaded harnesses can be added as further Harness entries built on
@@ -17,6 +19,11 @@ Layers (= harness names = second component of violation keys):
 Time is a grid of TICK = 1/64 s.  Data chunks become visible at planned ticks (+ `defer` loop iterations), cancels fire
 `d` ticks after the receive started; ties are therefore frequent, and the AlignedFeed coincidence bias additionally
 re-times a pending chunk exactly onto the loop's next timer (fault ``coincide_timer``).
+
+Bulk scenario (probe ``bulk-transfer``; 1 run in 4 of adapter-recv_into, 1 in 6 of tls-recv / tls-recv_into): the stream is
+[head] + one block of 256 KiB + 1..70000 bytes + [tail] of random filler, each part one chunk, receive buffers of 64 KiB ..
+512 KiB: a cancelled receive whose caller buffer (the TLS incoming reader's is 256 KiB) was filled completely by the read
+event hands >= 256 KiB back to the adapter's internal buffer while more bytes are already queued in the socket.
 
 Known defect D5 (DESIGN §5, fixed in /repo by e60fd44): on every ``recv_into`` based path a chunk that became visible in
 the same loop iteration in which the waiter was cancelled (either order) was lost.  Its key is
@@ -27,6 +34,7 @@ cancellations are generated on every layer ("revert D5" is the first sensitivity
 from __future__ import annotations
 
 import asyncio
+import hashlib
 import math
 from typing import Any, Callable
 
@@ -55,14 +63,17 @@ RULE = (
     "0-6 cancellations (backend.timeout, move_on_after, task.cancel from a timer callback or from a sibling task, "
     "iterator timeout, handler-yielded timeout, blocking timeout) d in 0..6 ticks after the receive started, so that arrival and "
     "cancellation tie often; coincidence bias re-times a pending chunk onto the loop's next timer (same iteration read-first / "
-    "next iteration); receiver pauses let the transport's internal buffer fill; 16 harnesses over 7 layers (adapter, endpoint, client, client iterator, TLS transport with cipher-text records fed whole or cut in two, server, blocking endpoint); oracle = returned bytes are a prefix "
-    "of the written stream at every return and equal it after an uncancelled drain to EOF"
+    "next iteration); receiver pauses let the transport's internal buffer fill; 18 harnesses over 7 layers (adapter, endpoint, client, client iterator, TLS transport with cipher-text records fed whole or cut in two, server, blocking endpoint); "
+    "TLS also in full-duplex use (tls-duplex-*): two writer tasks on the same connection while the peer does not read (link capacity 2-16 KiB), writer 1 blocked in send_all owning the send lock, "
+    "writer 2 encrypted and queued, peer resumes at a drawn tick; bulk scenario in a fraction of the adapter-recv_into / tls-recv* runs: one chunk just beyond 256 KiB (internal buffer of the adapter = "
+    "buffer of the TLS incoming reader) with receive buffers of 64-512 KiB, so that a cancelled receive hands a completely filled caller buffer back while more bytes are queued; "
+    "oracle = returned bytes are a prefix of the written stream at every return and equal it after an uncancelled drain to EOF, no receive fails on a valid stream"
 )
 COMPONENTS_REAL = [
     "easynetwork asyncio backend: StreamReaderBufferedProtocol, AsyncioTransportStreamSocketAdapter, CancelScope/timeout/move_on_after",
     "AsyncStreamEndpoint, AsyncTCPNetworkClient (+AsyncClientRecvIterator), AsyncTCPNetworkServer + lowlevel AsyncStreamServer request receivers",
     "StreamEndpoint + SocketStreamTransport (blocking)",
-    "AsyncTLSStreamTransport (+ OpenSSL on both ends; the peer is the reference vsim.tls.TLSPeer)",
+    "AsyncTLSStreamTransport (+ OpenSSL on both ends; the peer is the reference vsim.tls.TLSPeer), also with two send_all tasks sharing the connection with the receiver",
     "StreamDataConsumer / BufferedStreamDataConsumer, StringLineSerializer, StructSerializer",
     "CPython asyncio selector event loop and _SelectorSocketTransport",
 ]
@@ -74,6 +85,7 @@ ASSUMPTIONS = [
 BUDGET = {"quick": 40, "thorough": 480}
 
 TICK = 1.0 / 64
+BIG = 256 * 1024  # size of the adapter's internal buffer and of the TLS incoming reader's buffer
 KEY_D5 = "lost-bytes/cancel-same-iteration"
 
 
@@ -81,11 +93,23 @@ KEY_D5 = "lost-bytes/cancel-same-iteration"
 class _Codec:
     """how the numbered stream is framed on this layer; `encode(packet)` re-serialises a returned packet"""
 
-    def __init__(self, world: World, mode: str, buffered: bool):
+    def __init__(self, world: World, mode: str, buffered: bool, big: bool = False):
         self.mode = mode
         n = 1 + world.choose("nrec", 24)
         self.packets: list[Any] = []
         self.maxlen = 1  # longest packet on the wire
+        self.big_cuts: list[int] | None = None
+        if big:
+            # bulk transfer: [head] + one block just beyond the 256 KiB buffers (the adapter's internal one and the
+            # TLS incoming reader's) + [tail]; aperiodic filler (an XOF of one recorded choice: cheaper than a PRNG)
+            assert mode == "bytes"
+            head = (0, 5 * n, 4096)[world.choose("big.head", 3)]
+            block = BIG + (1, 1000, 5, 70000)[world.choose("big.over", 4)]
+            tail = (0, 5, 70000)[world.choose("big.tail", 3)]
+            self.stream = hashlib.shake_128(b"c10-%d" % world.choose("big.fill", 1 << 16)).digest(head + block + tail)
+            self.big_cuts = [c for c in (head, head + block) if 0 < c < len(self.stream)]
+            self.protocol = None
+            return
         if mode == "bytes":
             self.stream = b"".join(b"%03d;" % i for i in range(n))
             self.protocol = None
@@ -108,11 +132,13 @@ class _Codec:
 class _Plan:
     """one drawn scenario: stream, chunk schedule, cancel schedule"""
 
-    def __init__(self, world: World, layer: str, *, into: bool, mode: str, buffered: bool, kinds: tuple[str, ...], sync: bool = False):
+    def __init__(self, world: World, layer: str, *, into: bool, mode: str, buffered: bool, kinds: tuple[str, ...], sync: bool = False, big_den: int = 0):
         self.world = world
         self.layer = layer
         self.into = into  # recv_into based path (the D5 family)
-        self.codec = _Codec(world, mode, buffered)
+        # bulk scenario (1 run in `big_den` on the layers that allow it): costs ~1 ms more, hence only a fraction
+        self.big = bool(big_den) and world.chance("big", 1, big_den)
+        self.codec = _Codec(world, mode, buffered, self.big)
         stream = self.codec.stream
         L = len(stream)
         # a third of the runs are fault-free baselines (profile 0): whole stream at once, no cancellation, no perturbation
@@ -123,8 +149,11 @@ class _Plan:
             self.align_den = 0
             self.cancels: list[tuple[str, int]] = []
         else:
-            nchunks = 1 + world.choose("nchunks", min(8, L))
-            cuts = sorted({1 + world.choose("cut", L - 1) for _ in range(nchunks - 1)}) if L > 1 else []
+            if self.codec.big_cuts is not None:
+                cuts = self.codec.big_cuts
+            else:
+                nchunks = 1 + world.choose("nchunks", min(8, L))
+                cuts = sorted({1 + world.choose("cut", L - 1) for _ in range(nchunks - 1)}) if L > 1 else []
             bounds = [0, *cuts, L]
             t = world.choose("t0", 5)
             self.chunks = []
@@ -133,16 +162,27 @@ class _Plan:
                 self.chunks.append((t, stream[a:b], defer))
                 t += world.choose("gap", 6)
             self.fin_tick = t + world.choose("fin.gap", 4)
-            self.align_den = (0, 0, 4, 2)[world.choose("align_den", 4)]
+            # (bulk runs cost more: stronger coincidence bias there)
+            self.align_den = ((0, 1, 1, 2) if self.big else (0, 0, 4, 2))[world.choose("align_den", 4)]
             ncancel = world.choose("ncancel", 7)
             self.cancels = [(kinds[world.choose("kind", len(kinds))], world.choose("d", 7)) for _ in range(ncancel)]
         self.pause_den = (0, 0, 3)[world.choose("pause_den", 3)]
-        self.sizes = [(4096, 1, 2, 3, 5, 8, 64)[world.choose("size", 7)] for _ in range(3)]
+        if self.big:
+            world.probe("bulk-transfer")
+            self.sizes = [(BIG, 65536, BIG, 2 * BIG, BIG + 4096)[world.choose("size", 5)] for _ in range(3)]
+        else:
+            self.sizes = [(4096, 1, 2, 3, 5, 8, 64)[world.choose("size", 7)] for _ in range(3)]
         if len(self.chunks) > 1:
             world.fault("frag")
         if any(c[0] for c in self.chunks):
             world.fault("delay")
         world.notes.update(layer=layer, baseline=self.baseline, stream_len=L, chunks=[(c[0], len(c[1]), c[2]) for c in self.chunks], fin_tick=self.fin_tick, cancels=self.cancels, align_den=self.align_den, sizes=self.sizes)
+
+    @property
+    def align_offsets(self) -> tuple[int, ...]:
+        """AlignedFeed offsets (loop iterations between the aligned timer and the chunk); bulk runs: read-first in the
+        same iteration (the order in which bytes already sit in the cancelled caller's buffer) more often"""
+        return (0, 1, 2, 0, 0) if self.big else (0, 1, 2)
 
     def start_feed(self, feed: AlignedFeed, t0: float) -> None:
         for tick, data, defer in self.chunks:
@@ -274,7 +314,7 @@ class _Ledger:
             what = "error-on-valid-stream/" + extra
         elif i >= len(stream):
             what = "extra-bytes"
-        elif _is_subsequence(got, stream):
+        elif _is_subsequence(got[i:], stream[i:]):  # (the common prefix matches greedily)
             what = "lost-bytes"  # what was returned is the written stream with bytes deleted
         elif stream.find(window, 0, i + len(window) - 1) >= 0:
             what = "dup-bytes"
@@ -284,7 +324,7 @@ class _Ledger:
         # byte is somewhere in [lo, hi): `i` is only the first *observable* divergence (a deletion inside a repeated
         # pattern shows later; on packet layers the lost chunk may begin anywhere in the damaged packet).
         lo = i
-        for a in range(i):
+        for a in range(max(0, i - 512), i):  # (512 > every non-bulk stream; bulk streams are random filler)
             if stream.find(stream[a:i] + got[i : i + 1], a + 1) >= 0:
                 lo = a
                 break
@@ -430,13 +470,13 @@ async def _rx_body(world: World, backend: SimAsyncIOBackend, layer: Any, led: _L
             await asyncio.sleep(p * TICK)
 
 
-def _h_async(world: World, name: str, make_layer: Callable[[], Any], *, into: bool, kinds: tuple[str, ...]) -> None:
+def _h_async(world: World, name: str, make_layer: Callable[[], Any], *, into: bool, kinds: tuple[str, ...], big_den: int = 0) -> None:
     layer = make_layer()
-    plan = _Plan(world, name, into=into, mode=layer.mode, buffered=layer.buffered, kinds=kinds)
+    plan = _Plan(world, name, into=into, mode=layer.mode, buffered=layer.buffered, kinds=kinds, big_den=big_den)
     net = SimNet(world)
     backend = SimAsyncIOBackend(net)
     lib, psock = net.socketpair(delivery_ba=Delivery(frag=5))
-    feed = AlignedFeed(world, psock, align_den=plan.align_den)
+    feed = AlignedFeed(world, psock, align_den=plan.align_den, offsets=plan.align_offsets)
     led = _Ledger(world, plan, feed)
 
     async def amain() -> None:
@@ -505,22 +545,45 @@ class _TLSRecv:
             await self.tls.aclose()
 
 
-def _h_tls(world: World, name: str, into: bool) -> None:
+def _h_tls(world: World, name: str, into: bool, duplex: bool = False) -> None:
     """AsyncTLSStreamTransport.recv / recv_into over the adapter; the peer is the reference TLSPeer whose cipher-text
-    reaches the library through an AlignedFeed (whole records, or a record cut in two)"""
+    reaches the library through an AlignedFeed (whole records, or a record cut in two).
+
+    duplex: the same receiver shares the connection with two writer tasks while the peer does not read for a while
+    (full-duplex use, e.g. a server pushing data from several tasks to a slow client while its connection task waits
+    for the next request under a timeout): writer 1 is stuck in ``send_all`` owning the transport send lock, writer 2
+    has encrypted its data and queues for the lock; the numbered stream arrives meanwhile, receives are cancelled as on
+    the other layers, the peer resumes reading at a planned tick.  Same oracle: what the receives return."""
+    import ssl
+
     from easynetwork.lowlevel.api_async.transports.tls import AsyncTLSStreamTransport
 
     from vsim.tls import TLSPeer, make_context
 
     layer = _TLSRecv(into)
-    plan = _Plan(world, name, into=True, mode="bytes", buffered=False, kinds=_KINDS)
+    plan = _Plan(world, name, into=True, mode="bytes", buffered=False, kinds=_KINDS, big_den=0 if duplex else 6)
     version = ("1.3", "1.2")[world.choose("tls.version", 2)]
     lib_server = bool(world.choose("tls.lib_server", 2))
     splits = [(world.choose("tls.split", 3), world.choose("tls.split.at", 1 << 10), world.choose("tls.split.gap", 3)) for _ in plan.chunks] if not plan.baseline else [(0, 0, 0)] * len(plan.chunks)
     world.notes.update(tls=version, lib_server=lib_server)
     net = SimNet(world)
     backend = SimAsyncIOBackend(net)
-    lib, psock = net.socketpair()
+    blocked = duplex and not plan.baseline  # (baseline profile: the writers write, the peer reads — fault-free)
+    if blocked:
+        cap = (4096, 2048, 16384)[world.choose("dx.cap", 3)]
+        n1 = (40000, 20000, 90000)[world.choose("dx.w1size", 3)]
+        n2 = (17, 500, 20000)[world.choose("dx.w2size", 3)]
+        start1 = world.choose("dx.start1", 3)  # ticks after the feed started
+        start2 = start1 + world.choose("dx.start2", 5)
+        # the peer reads again: late (after its own last byte), at a drawn tick, or right after writer 2 queued
+        last = max(plan.fin_tick, start2) + 8
+        resume_tick = (last, start2 + 1 + world.choose("dx.resume", last), start2 + 1)[world.choose("dx.resume.mode", 3)]
+        world.fault("capacity_small")
+        world.notes.update(duplex=dict(cap=cap, w1=n1, w2=n2, start1=start1, start2=start2, resume_tick=resume_tick))
+        lib, psock = net.socketpair(capacity_ab=cap)
+    else:
+        cap, n1, n2, start1, start2, resume_tick = 0, 2000, 17, 0, 0, 0
+        lib, psock = net.socketpair()
     peer = TLSPeer(world, psock, server_side=not lib_server, version=version, shape="eager")
     box: dict[str, Any] = {"plan": plan}
 
@@ -539,7 +602,7 @@ def _h_tls(world: World, name: str, into: bool) -> None:
                 raise HarnessError("C10 tls: handshake does not settle")
         # from here on the harness decides when cipher-text becomes visible
         pipe.delivery = Delivery(frag=5)
-        feed = box["feed"] = AlignedFeed(world, psock, align_den=plan.align_den)
+        feed = box["feed"] = AlignedFeed(world, psock, align_den=plan.align_den, offsets=plan.align_offsets)
         led = box["led"] = layer.led = _Ledger(world, plan, feed)  # type: ignore[attr-defined]
         captured: list[bytes] = []
         peer.sink = captured.append
@@ -578,6 +641,29 @@ def _h_tls(world: World, name: str, into: bool) -> None:
         if not plan.baseline:
             swarm_selector(world, loop.sim_selector)  # type: ignore[attr-defined]
             loop.sim_selector.spurious_den = 0  # type: ignore[attr-defined]
+        writers: list[asyncio.Task[None]] = []
+        if duplex:
+            if blocked:
+                peer.paused = True
+                world.fault("peer_stops_reading")
+                world.at(t0 + resume_tick * TICK, lambda: (world.log("peer_resumes", name), peer.resume()))
+
+            async def writer(label: str, start: int, size: int) -> None:
+                await asyncio.sleep(start * TICK)
+                world.log("writer_start", label, size)
+                if blocked and peer.paused:
+                    world.probe(f"duplex:{label}-starts-while-peer-not-reading")
+                try:
+                    await tls.send_all(bytes(size))
+                except (OSError, ssl.SSLError) as exc:  # not this property's business (C08); the receive side goes on
+                    world.log("writer_failed", label, type(exc).__name__)
+                    return
+                world.log("writer_done", label)
+                if blocked and peer.paused and label == "writer1":  # (writer 2 may run first when both start at the same tick)
+                    raise HarnessError(f"C10 {name}: {label} finished although the peer never read (cap={cap}, size={size})")
+
+            writers.append(loop.create_task(writer("writer1", start1, n1), name="c10-writer1"))
+            writers.append(loop.create_task(writer("writer2", start2, n2), name="c10-writer2"))
         spawned = 0
         while not led.stopped:
             spawned += 1
@@ -588,8 +674,22 @@ def _h_tls(world: World, name: str, into: bool) -> None:
                 if not task.cancelled():
                     raise
                 led.note_cancel("task.cancel")
+        if writers:
+            if led.violation is not None:
+                for w in writers:
+                    w.cancel()
+            done, pending = await asyncio.wait(writers, timeout=4000.0)
+            if pending:
+                raise HarnessError(f"C10 {name}: the writers never finished although the peer reads again (resume tick {resume_tick}, now {(world.now - t0) / TICK})")
+            for w in writers:
+                if not w.cancelled() and w.exception() is not None:
+                    raise w.exception()  # type: ignore[misc]
         peer.sink = None
-        await layer.close()
+        try:
+            await layer.close()
+        except Exception:
+            if led.violation is None:  # (after an oracle failure the connection may be broken: report the failure, not the close)
+                raise
 
     _run(world, box, amain)
 
@@ -716,13 +816,13 @@ def _h_sync(world: World, name: str, mode: str, buffered: bool) -> None:
 _KINDS = ("timeout", "move_on", "kill_timer", "kill_sibling")
 
 
-def _mk_async(name: str, make_layer: Callable[[], Any], into: bool, kinds: tuple[str, ...] = _KINDS, weight: int = 1) -> Harness:
-    return Harness(name, lambda w: _h_async(w, name, make_layer, into=into, kinds=kinds), weight=weight)
+def _mk_async(name: str, make_layer: Callable[[], Any], into: bool, kinds: tuple[str, ...] = _KINDS, weight: int = 1, big_den: int = 0) -> Harness:
+    return Harness(name, lambda w: _h_async(w, name, make_layer, into=into, kinds=kinds, big_den=big_den), weight=weight)
 
 
 HARNESSES = [
     _mk_async("adapter-recv", _AdapterRecv, False, weight=2),
-    _mk_async("adapter-recv_into", _AdapterRecvInto, True, weight=3),
+    _mk_async("adapter-recv_into", _AdapterRecvInto, True, weight=3, big_den=4),
     _mk_async("endpoint-copy", lambda: _Endpoint("line", False), False),
     _mk_async("endpoint-copy-struct", lambda: _Endpoint("struct", False), False),
     _mk_async("endpoint-buffered", lambda: _Endpoint("line", True), True, weight=2),
@@ -733,6 +833,8 @@ HARNESSES = [
     _mk_async("client-iter-buffered", lambda: _Client("line", True), True, kinds=("iter",)),
     Harness("tls-recv", lambda w: _h_tls(w, "tls-recv", False)),
     Harness("tls-recv_into", lambda w: _h_tls(w, "tls-recv_into", True)),
+    Harness("tls-duplex-recv", lambda w: _h_tls(w, "tls-duplex-recv", False, duplex=True)),
+    Harness("tls-duplex-recv_into", lambda w: _h_tls(w, "tls-duplex-recv_into", True, duplex=True)),
     Harness("server-copy", lambda w: _h_server(w, "server-copy", "line", False)),
     Harness("server-buffered", lambda w: _h_server(w, "server-buffered", "line", True), weight=2),
     Harness("blocking-endpoint-copy", lambda w: _h_sync(w, "blocking-endpoint-copy", "line", False)),
